@@ -8,7 +8,7 @@ TECH = "deterministic simulation with fault injection: seeded search over schedu
 # id -> (engine, design_ref, level text, level note, thorough?)
 CLAIMED = {
  "C01": ("F", "DESIGN.md §7 C01, §3.2",
-   "Seeded exploration (engine F): real EncodeBody (client/server role, identity/gzip/deflate/zstd, raw and prost codecs, randomised buffer/yield settings) is driven under a drawn source-readiness schedule and under the all-Ready reference schedule; the emitted bytes must be identical, parse with an independent decoder, and — re-cut at drawn offsets (inside prefixes, inside compressed payloads, 1-byte chunks) and delivered with delays — decode through real Streaming into exactly the original messages, then a clean end. Evidence, not proof.",
+   "Seeded exploration (engine F): real EncodeBody (client/server role, identity/gzip/deflate/zstd, raw and prost codecs, randomised buffer/yield settings) is driven under a drawn source-readiness schedule and under the all-Ready reference schedule; the emitted bytes must be identical, parse with an independent decoder, and — re-cut at drawn offsets (inside prefixes, inside compressed payloads, 1-byte chunks) and delivered with delays, as contiguous or non-contiguous (segmented) buffers, by a body that may report is_end_stream — decode through real Streaming into exactly the original messages, then a clean end. Message sources are unfused in the hostile way the Stream contract allows (polled after None they block for ever). Evidence, not proof.",
    "Trusted: independent frame parser, flate2 write::*/zstd bulk. Per-response opt-out is exercised via server::Grpc in the C02/C05 loopback scenarios."),
  "C02": ("F+N", "DESIGN.md §7 C02, §3.2, §3.3, §13",
    "Seeded exploration. Engine N: real Server + 1..3 Channels (hyper, h2, Buffer, router) over the simulated network with fragmentation, stalls and randomised HTTP/2 windows/frame size; 1..8 concurrent tagged calls of all shapes multiplexed on the connections, identity-channel oracle per call; a separate fault-injecting configuration kills the connection at a drawn byte offset (never success with wrong/missing data, items a prefix, clean end only after true OK, no hang); the raw-h2 server-view scenario judges status/messages as an independent wire reader. Engine F: generated clients call generated servers (raw codec, prost with/without package; all four shapes) over a loopback whose request and response bodies are re-chunked and delayed by the tape; scripted handlers produce k messages then OK or any Status (Unicode message, details, metadata), possibly refusing the call; the oracle is the identity channel on messages, metadata and status in both directions. Evidence, not proof.",
@@ -29,16 +29,16 @@ CLAIMED = {
    "Seeded exploration (engine F): tonic::codec::Streaming is driven poll by poll over simulated bodies carrying mutated/random byte strings in arbitrary chunkings, with injected Pending, body errors of several types, trailers and a silent peer; an independent sequential framing parser is the reference; the stream is polled past its first terminal event. A clean batch is evidence, not proof.",
    "Trusted: the harness's independent frame parser and flate2 write::*/zstd bulk decoders; body scripts are conformant HTTP bodies (nothing after trailers)."),
  "C09": ("N+F", "DESIGN.md §7 C09, §3.3",
-   "Seeded exploration in virtual time (engine N): real tonic Server (Server::timeout) and Channel (Endpoint::timeout) with Request::set_timeout over the simulated network on tokio's paused clock; handler latency on a grid around D = min of the configured deadlines; oracle: the true response below D-g, CANCELLED 'Timeout expired' with elapsed in [D, D+g] above D+g, either inside the band (g = 2 ms). Engine F: the grpc-timeout value a foreign peer receives (<= 8 digits + unit, never longer, loses < 1 unit) for durations biased to unit boundaries up to 99999999 h; the server parser through hook H2 on every unit x digit-count structure (enumerated) and malformed strings.",
+   "Seeded exploration in virtual time (engine N): real tonic Server (Server::timeout) and Channel (Endpoint::timeout) with Request::set_timeout over the simulated network on tokio's paused clock; handler latency on a grid around D = min of the configured deadlines; oracle: the true response below D-g, CANCELLED 'Timeout expired' with elapsed in [D, D+g] above D+g, either inside the band (g = 2 ms); half of the runs issue a second call with an independent deadline on the same channel; a raw h2 server that never answers checks the caller's own deadline locally. Engine F: the grpc-timeout value a foreign peer receives (<= 8 digits + unit, never longer, loses < 1 unit) for durations biased to unit boundaries up to 99999999 h; the server parser through hook H2 on every unit x digit-count structure (enumerated) and malformed strings.",
    "Guard band 2 ms (tokio timer wheel granularity); the grammar clauses are pure functions and are sampled structurally, not decided. Hooks: H1 (no wall-clock date header), H2 (parser wrapper)."),
  "C13": ("N", "DESIGN.md §7 C13, §3.3",
-   "Seeded exploration in virtual time (engine N): real serve_with_incoming_shutdown with 0..3 connections and 1..6 unary/streaming/bidi calls with virtual latencies; the signal is placed at a drawn virtual instant or right after the k-th handler entry; one more connection is offered strictly after the signal; oracle: every call whose handler was entered completes at its caller with the true outcome (C02 oracle), the late connection is never served, the serve future resolves only after every accepted connection's server end was dropped (ordered by a global event sequence) and does resolve once they have.",
+   "Seeded exploration in virtual time (engine N): real serve_with_incoming_shutdown with 0..3 connections and 1..6 unary/streaming/bidi calls with virtual latencies; the signal is placed at a drawn virtual instant or right after the k-th handler entry; one more connection is offered strictly after the signal; oracle: every call whose handler was entered completes at its caller with the true outcome (C02 oracle), the late connection is never served, the serve future resolves only after every accepted connection's server end was dropped (ordered by a global event sequence) and does resolve once they have. Also drawn: accept errors from the listener, shutdown by the end of the incoming stream, Server::timeout (150 ms, above every handler latency) and max_connection_age (20/60 ms) — none may weaken the drain.",
    "Accepted = handler entered. Closure of connections after the last in-flight call is a probe, not judged."),
  "C14": ("N", "DESIGN.md §7 C14, §3.3",
-   "Complete enumeration of all 726 fault scripts of length <= 5 over {connect fails, connect succeeds, established connection dropped} x {lazy, eager}, then seeded random scripts up to length 14 (engine N): real Channel (Buffer worker, Reconnect, hyper/h2 client) and Server; a call (sometimes two back-to-back) at every quiescent point; oracle = two-state reference automaton matching per-call outcome and connector invocation count one-to-one (connector failure => UNAVAILABLE to the triggering call only, eager initial failure reported immediately, success without rebuilding once reachable). Relaxed configuration: the connection dies at a drawn byte offset during a call => definite result, no hang/panic, recovery at the next quiescent calls.",
+   "Complete enumeration of all 726 fault scripts of length <= 5 over {connect fails, connect succeeds, established connection dropped} x {lazy, eager}, then seeded random scripts up to length 14 (engine N): real Channel (Buffer worker, Reconnect, hyper/h2 client) and Server; a call (sometimes two back-to-back) at every quiescent point; oracle = two-state reference automaton matching per-call outcome and connector invocation count one-to-one (connector failure => UNAVAILABLE to the triggering call only, eager initial failure reported immediately, success without rebuilding once reachable). 12 io::ErrorKinds and connect_timeout drawn. Relaxed configuration: the connection dies at a drawn byte offset during a call — EOF, reset, or a silent partition (blackhole) with HTTP/2 keep-alive configured — => definite result within the keep-alive bound, no hang/panic, recovery at the next quiescent calls. Graceful configuration: the server retires connections by GOAWAY (max_connection_age) while the channel is idle; every later round of calls succeeds on a fresh connection.",
    "Calls are issued at quiescent points, as the property states."),
  "C15": ("N", "DESIGN.md §7 C15, §3.3",
-   "Complete enumeration of the 486-cell matrix (client roots x domain x server ALPN x assume_http2 x server client-auth x client identity), each cell again under further seeded network schedules (engine N, real rustls on both ends of the simulated pipe): tonic ClientTlsConfig against tonic ServerTlsConfig, or against the harness's own rustls acceptor + raw h2 server for ALPN absent/http/1.1; oracle = verdict table (success iff chain valid, name matches, h2 negotiated or opted out, client-auth satisfied); in every failing cell the call does not succeed and no request reaches a handler; the captured client bytes always start with a TLS handshake record and never show the HTTP/2 preface or the request canary in clear; handlers see the verified client certificate (DER-equal); https without TLS config fails with zero bytes written.",
+   "Complete enumeration of the 486-cell matrix (client roots x domain x server ALPN x assume_http2 x server client-auth x client identity), each cell again under further seeded network schedules (engine N, real rustls on both ends of the simulated pipe): tonic ClientTlsConfig against tonic ServerTlsConfig, or against the harness's own rustls acceptor + raw h2 server for ALPN absent/http/1.1; oracle = verdict table (success iff chain valid, name matches, h2 negotiated or opted out, client-auth satisfied); in every failing cell the call does not succeed and no request reaches a handler; the captured client bytes always start with a TLS handshake record and never show the HTTP/2 preface or the request canary in clear; handlers see the verified client certificate (DER-equal); https without TLS config fails with zero bytes written; a server whose client-CA material holds no usable certificate (30 cells: empty / not PEM / a key / garbage DER / whitespace x required/optional x client identity) is refused at configuration or serves nobody when authentication is required. Trust roots are supplied through the different builder methods (ca_certificate / ca_certificates, drawn).",
    "Cells the property leaves open are not judged. rustls checks certificate validity against the wall clock (PKI valid 2020..2120). Ciphertext differs between executions; schedule, lengths and verdicts replay exactly."),
  "C16": ("F", "DESIGN.md §7 C16",
    "Seeded exploration (engine F): the real GrpcWebLayer wraps a scripted inner service; grpc-web requests (binary or one base64 string) are cut at arbitrary positions incl. inside a 4-char quantum; inner gRPC responses (frames cut anywhere, arbitrary trailers incl. repeated names/obs-text, or trailers-only) are translated for Accept binary/text/absent/other; an independent grpc-web decoder checks identical message bytes + exactly one final 0x80 trailers frame listing every trailer; the (method, version, content-type) cases are checked for 405/400/pass-through-unchanged.",
